@@ -36,30 +36,64 @@ import mcnpref
 import t4eval
 from common import cfloat, cbool, clist, copt, cpair, cz
 
+# every theorem of coq/Properties/C04.v is a member of exactly one family; a family
+# is the conjunction of its member theorems, so one Print Assumptions per family
+# audits all of them (quick tier < 2 min)
 THEOREMS = [
-    'C04_quad_congruence', 'C04_frame_transform_gq',
-    'C04_frame_transform_plane', 'C04_frame_transform_sphere',
-    'C04_frame_transform_cylinder', 'C04_frame_transform_cone',
-    'C04_frame_transform_cone_sheet', 'C04_frame_transform_torus',
-    'C04_normalize_matrix_9_reproduces', 'C04_normalize_matrix_6_reproduces',
+    'C04_family_surfaces',
+    'C04_family_matrices',
+    'C04_family_cards',
+    'C04_family_compose',
+    'C04_family_cells',
+]
+MEMBERS = [
+    'C04_quad_congruence',
+    'C04_frame_transform_gq',
+    'C04_frame_transform_plane',
+    'C04_frame_transform_sphere',
+    'C04_frame_transform_cylinder',
+    'C04_frame_transform_cone',
+    'C04_frame_transform_cone_sheet',
+    'C04_frame_transform_torus',
+    'C04_frame_transform_torus_total',
+    'C04_normalize_matrix_9_reproduces',
+    'C04_normalize_matrix_6_reproduces',
     'C04_normalize_matrix_6_cols_reproduces',
     'C04_normalize_matrix_3_reproduces',
     'C04_normalize_matrix_3_cols_reproduces',
     'C04_normalize_matrix_5_reproduces',
-    'C04_adjust_matrix_fixpoint', 'C04_to_cos_deg', 'C04_tr_card_3',
-    'C04_tr_card_12', 'C04_tr_card_star_12', 'C04_m1_only', 'C04_inline_12',
-    'C04_inline_number', 'C04_implicit_surface',
-    'C04_implicit_surface_value', 'C04_frame_transform_sq',
-    'C04_compose_affine', 'C04_compose_mcnp_iff',
-    'C04_compose_not_mcnp_composition_in_general',
-    'C04_compose_translation_second', 'C04_lattice_filltr_fill',
-    'C04_lattice_filltr_trcl', 'C04_frame_transform_torus_total',
-    'C04_adjust_matrix_near_orthonormal', 'C04_adjust_matrix_idempotent',
-    'C04_trcl_cell', 'C04_transformation_law', 'C04_convert_law',
-    'C04_interface_law', 'C04_interface_law_inv', 'C04_convert_law_all',
-    'C04_entry_law',
-    'C04_trcl_cell_t4', 'C04_normalize_matrix_trailing_J',
+    'C04_adjust_matrix_fixpoint',
+    'C04_adjust_matrix_near_orthonormal',
+    'C04_adjust_matrix_idempotent',
+    'C04_normalize_matrix_trailing_J',
     'C04_error_branches',
+    'C04_normalize_transform_exact',
+    'C04_frame_perturbation',
+    'C04_normalize_transform_perturbation',
+    'C04_to_cos_deg',
+    'C04_tr_card_3',
+    'C04_tr_card_12',
+    'C04_tr_card_star_12',
+    'C04_m1_only',
+    'C04_inline_12',
+    'C04_inline_number',
+    'C04_implicit_surface',
+    'C04_implicit_surface_value',
+    'C04_frame_transform_sq',
+    'C04_compose_affine',
+    'C04_compose_mcnp_iff',
+    'C04_compose_not_mcnp_composition_in_general',
+    'C04_compose_translation_second',
+    'C04_lattice_filltr_fill',
+    'C04_lattice_filltr_trcl',
+    'C04_trcl_cell',
+    'C04_transformation_law',
+    'C04_convert_law',
+    'C04_interface_law',
+    'C04_interface_law_inv',
+    'C04_convert_law_all',
+    'C04_entry_law',
+    'C04_trcl_cell_t4',
 ]
 TRUSTED = [
     'hand-written model coq/C04/Model.v (modelled, tied by execution only)',
@@ -978,6 +1012,7 @@ def run(res, tier, seed, proofs_ok):
         'n TR, TRCL=n, TRCL=(..), *TRCL, 1000c+s. non-trivial = anything but '
         'the identity/no transformation')
 
+    res.extra['member_theorems'] = MEMBERS
     import c04_cov
     cov = c04_cov.LineCov(c04_cov.anchored_functions())
     with cov:
@@ -1025,7 +1060,7 @@ def run_body(res, rng, quick, seed):
     tie_trcards(res, rng, 500 if quick else 5000, 150 if quick else 1500)
     tie_matrix(res, rng, 300 if quick else 3000)
     pool = tie_small(res, rng, quick)
-    tie_surfaces(res, rng, 1800 if quick else 26000, pool)
+    tie_surfaces(res, rng, 2600 if quick else 26000, pool)
     tie_entries(res, rng, 300 if quick else 3000, pool)
     tie_trcl(res, rng, 400 if quick else 4000)
     tie_implicit(res, rng, 200 if quick else 2000)
